@@ -20,7 +20,7 @@ RULE = ("Cases: the full finite grid variant in {sift, mask_sift(zc), mask_sift(
         "envelope / extrema options; every interp_envelope / get_padded_extrema call made inside a get_next_imf received the "
         "supplied interp_method / pad width / refinement / pad dicts; at least one record of each stage exists; with "
         "nprocesses > 1 records come from other pids; and the four delivery routes give np.array_equal outputs (RNG "
-        "re-seeded); (reference) Hypothesis signals (incl. mid-record bursts whose extrema need several padding passes) x "
+        "re-seeded); (spawn) 16 (quick) / 48 (thorough) grid points re-run in fresh interpreters whose pools start their workers with the spawn / forkserver start methods, same trace oracle; (reference) Hypothesis signals (incl. mid-record bursts whose extrema need several padding passes) x "
         "option sets incl. custom np.pad magnitude options x route: the first IMFs of the classic / second-layer sift must "
         "equal (1e-9) the pipeline assembled from the independent reference stages run with the same options. "
         "Non-trivial: at least one supplied option differs from its default.")
@@ -275,7 +275,97 @@ def oracle_reference(case, rec):
     return cols >= 1 and ('mag_pad_opts' in xo or xo['pad_width'] != 2 or xo['parabolic_extrema'] or case['interp'] != 0)
 
 
+# ----------------------------------------------------------------------------
+# worker processes that are not forked copies of the parent (spawn / forkserver start methods)
+
+SPAWN_SCRIPT = r'''
+import os, sys, json, warnings
+warnings.filterwarnings('ignore')
+if __name__ == '__main__':
+    import multiprocessing as mp
+    mp.set_start_method(sys.argv[2])
+    sys.path.insert(0, sys.argv[1])
+    sys.path.insert(0, sys.argv[3])
+    import numpy as np
+    import emd
+    from vp.props import c06
+    from vp.trace import Trace
+    spec = json.loads(sys.argv[4])
+    x = c06.signal_of(0)
+    imf_opts = c06.IMF_OPTS[spec['imf']]
+    eo = {'interp_method': c06.INTERP[spec['interp']]}
+    xo = c06.EXTREMA[spec['extrema']]
+    with Trace() as tr:
+        out = c06.call_variant(emd, spec['variant'], spec['route'], x, imf_opts, eo, xo, spec['nproc'], None)
+    out = np.asarray(out[0] if isinstance(out, tuple) else out)
+    recs = [{k: r[k] for k in list(c06.DEF_IMF) + ['envelope_opts', 'extrema_opts', 'callers', 'pid']} for r in tr.kind('get_next_imf')]
+    sys.stdout.write(json.dumps({'parent': os.getpid(), 'records': recs, 'digest': float(np.abs(out).sum()), 'shape': list(out.shape)}))
+'''
+
+
+def enum_spawn(tier):
+    variants = ['ensemble_sift', 'complete_ensemble_sift', 'mask_sift_list', 'mask_sift_zc']
+    methods = ['spawn', 'forkserver']
+    pts = []
+    for vi, v in enumerate(variants):
+        for mi, m in enumerate(methods):
+            for io in ((1, 2) if tier == 'quick' else range(len(IMF_OPTS))):
+                pts.append({'variant': v, 'method': m, 'imf': io, 'interp': (io + vi) % 3, 'extrema': (io + mi) % 3,
+                            'nproc': 1 + (io + vi + mi) % 2 * 2, 'route': ROUTES[(io + vi) % 4]})
+    for p in pts:
+        yield p
+
+
+def oracle_spawn(case, rec):
+    """The same trace oracle with workers started by spawn / forkserver: nothing a worker needs may live only in the
+    parent's module state."""
+    import sys
+    import json
+    import subprocess
+    import tempfile
+    from ..core import REPO, VERIF
+    with tempfile.NamedTemporaryFile('w', suffix='.py', dir='/dev/shm' if os.path.isdir('/dev/shm') else None, delete=False) as f:
+        f.write(SPAWN_SCRIPT)
+        script = f.name
+    try:
+        p = subprocess.run([sys.executable, '-W', 'ignore', script, REPO, case['method'], VERIF, json.dumps(case)],
+                           capture_output=True, text=True, timeout=220, env=dict(os.environ, PYTHONPATH=VERIF))
+    finally:
+        os.unlink(script)
+    if p.returncode != 0:
+        if 'EMDSiftCovergeError' in p.stderr:
+            raise Discard('convergence error')
+        raise Violation('C06/spawn/%s/%s/raises' % (case['variant'], case['method']), p.stderr[-600:])
+    res = json.loads(p.stdout)
+    exp_imf = norm_imf(IMF_OPTS[case['imf']])
+    exp_interp = INTERP[case['interp']]
+    exp_ext = norm_extrema(EXTREMA[case['extrema']])
+    if not res['records']:
+        raise Violation('C06/spawn/%s/stage-never-ran' % case['variant'], '')
+    workers = set()
+    for r in res['records']:
+        site = r['callers'][0] if r['callers'] else '?'
+        where = 'parent' if r['pid'] == res['parent'] else 'worker'
+        workers.add(r['pid'])
+        got = {k: r[k] for k in DEF_IMF}
+        if got != exp_imf:
+            raise Violation('C06/spawn/%s/imf-options-dropped/%s/via-%s' % (case['variant'], where, site),
+                            '%s start method: received %r' % (case['method'], {k: got[k] for k in got if got[k] != exp_imf[k]}))
+        if (r['envelope_opts'] or {}).get('interp_method', 'splrep') != exp_interp:
+            raise Violation('C06/spawn/%s/envelope-options-dropped/%s/via-%s' % (case['variant'], where, site),
+                            '%s start method: received %r' % (case['method'], r['envelope_opts']))
+        if norm_extrema(r['extrema_opts']) != exp_ext:
+            raise Violation('C06/spawn/%s/extrema-options-dropped/%s/via-%s' % (case['variant'], where, site),
+                            '%s start method: received %r' % (case['method'], r['extrema_opts']))
+    rec.cls('start_method=' + case['method'])
+    rec.cls('variant=' + case['variant'])
+    rec.cls('worker_pids=%d' % len(workers - {res['parent']}))
+    return True
+
+
 CLAUSES = [
+    Clause('C06.spawn', oracle_spawn, enumerate=enum_spawn, quick=None, thorough=None, shards=(16, 16), exhaustive=True,
+           nt_rule='every evaluated (variant, start method, option set)'),
     Clause('C06.reference', oracle_reference, strategy=ref_case(), quick=1200, thorough=30000, shards=(16, 16),
            nt_rule='>= 1 IMF compared under a non-default envelope / extrema option'),
     Clause('C06.grid', oracle, enumerate=enum_grid, quick=None, thorough=None, shards=(16, 16), exhaustive=True,
